@@ -176,7 +176,9 @@ def h_driver(ctx, pname, rec, driver, intx=False):
             ctx.eq(_flat(r), np.array(ref, dtype=object), 'vec_hess_vec')
         elif driver.startswith('jacobian(utpm'):
             # Taylor expansion of every Jacobian entry along a curve
-            D, P = 2, 2
+            import re as _re
+            mm = _re.search(r'D(\d+),P(\d+)', driver)
+            D, P = int(mm.group(1)), int(mm.group(2))
             carg = O.Arg('utpm', prog.shape, prog.dom)
             C = O.make_input(ctx, carg, 'c', D, P)
             Jt = cg.jacobian(O.wrap(ctx, algopy, carg, C))
@@ -201,8 +203,46 @@ def h_driver(ctx, pname, rec, driver, intx=False):
                     J1 = (Jp - Jm) / (2 * h)
                 ctx.eq(np.asarray(JT[0, p], dtype=object).reshape(J0.shape), J0, 'jacobian(curve) order 0 dir %d' % p)
                 ctx.eq(np.asarray(JT[1, p], dtype=object).reshape(J0.shape), J1, 'jacobian(curve) order 1 dir %d' % p)
+                if D >= 3:
+                    x2 = list(C[2, p].ravel())
+                    if ctx.mode == 'sym':
+                        seed2 = dict((x0[n].a[0], x2[n]) for n in range(N))
+                        Ja = np.array(diff.d(list(J0.ravel()), seed2), dtype=object).reshape(J0.shape)
+                        Jb = np.array(diff.d(list(J1.ravel()), seed), dtype=object).reshape(J0.shape)
+                        J2 = Ja + Jb * S.const(1) / 2
+                    else:
+                        h = 1e-3
+                        def Jat(t):
+                            return jacobian_oracle(ctx, algopy, A, prog, list(np.array(x0) + t * np.array(x1) + t * t * np.array(x2)))[1]
+                        J2 = (Jat(h) + Jat(-h) - 2 * Jat(0.0)) / (2 * h * h)
+                    ctx.eq(np.asarray(JT[2, p], dtype=object).reshape(J0.shape), J2, 'jacobian(curve) order 2 dir %d' % p)
         else:
             raise KeyError(driver)
+        # a result handed out by a driver keeps its value when the driver is called again elsewhere
+        if driver in ('gradient', 'jacobian', 'vec_jac', 'hessian', 'hess_vec') and not intx:
+            x2arg, X2 = make_value(ctx, prog, 'nd', 'xx')
+            x2 = _arr(ctx, list(X2.ravel()))
+            if driver == 'gradient':
+                first = cg.gradient(x)
+                keep = np.array(plain(np.asarray(first, dtype=object)), dtype=object).copy()
+                cg.gradient(x2)
+            elif driver == 'jacobian':
+                first = cg.jacobian(x)
+                keep = np.array(plain(np.asarray(first, dtype=object)), dtype=object).copy()
+                cg.jacobian(x2)
+            elif driver == 'vec_jac':
+                first = cg.vec_jac(_arr(ctx, w), x)
+                keep = np.array(plain(np.asarray(first, dtype=object)), dtype=object).copy()
+                cg.vec_jac(_arr(ctx, w), x2)
+            elif driver == 'hessian':
+                first = cg.hessian(x)
+                keep = np.array(plain(np.asarray(first, dtype=object)), dtype=object).copy()
+                cg.hessian(x2)
+            else:
+                first = cg.hess_vec(x, _arr(ctx, v))
+                keep = np.array(plain(np.asarray(first, dtype=object)), dtype=object).copy()
+                cg.hess_vec(x2, _arr(ctx, v))
+            ctx.eq(plain(np.asarray(first, dtype=object)), keep, '%s: result still intact after a second call at another point' % driver)
     except Exception as e:
         if isinstance(e, KeyError):
             raise
@@ -237,6 +277,9 @@ def units(tier, seed):
             for kind in (['array'] if tier == 'quick' else ['array', 'list']):
                 out.append(Unit('C04/%s/%s/integer-typed x (%s)' % (pn, drv, kind), 'symx.props.c04', 'h_driver',
                                 {'pname': pn, 'rec': ('utpm', 1, 1), 'driver': drv, 'intx': kind}, dict(opts)))
+    for pn in ['x*x', 'exp', 'x/(1+x*x)', 'exp(dot)', 'sin(x)*x']:
+        out.append(Unit('C04/%s/jacobian(utpm D3,P1)/rec=nd' % pn, 'symx.props.c04', 'h_driver',
+                        {'pname': pn, 'rec': 'nd', 'driver': 'jacobian(utpm D3,P1)'}, dict(opts, float_tol=2e-4)))
     nrand = 6 if tier == 'quick' else 40
     for i in range(nrand):
         name = 'random(seed=%d,len=%d)' % (7000 + 1000 * seed + i, 3 + i % 5)
